@@ -707,6 +707,8 @@ fn gemv<'a, LhsT: GemmInT, RhsT: GemmInT, OutT: GemmOutT>(
             for (k_block, a_block) in
                 range_chunks(0..a_cols, k_block_size).zip(a_data.chunks(k_block_size))
             {
+                #[cfg(rten_verif)]
+                let verif_k_block = k_block.clone();
                 let b_block = slice_matrix(b, k_block, col_block.clone());
 
                 let mat_vec_out = if effective_beta == OutT::zero() {
@@ -716,6 +718,15 @@ fn gemv<'a, LhsT: GemmInT, RhsT: GemmInT, OutT: GemmOutT>(
                     MatVecOutput::from_slice(unsafe { out_chunk.assume_init() }, effective_beta)
                 };
 
+                #[cfg(rten_verif)]
+                verif::record(verif::TraceEv::GemvKernel {
+                    col_start: col_block.start,
+                    col_end: col_block.end,
+                    depth_start: verif_k_block.start,
+                    depth_end: verif_k_block.end,
+                    beta_is_zero: effective_beta == OutT::zero(),
+                    beta_is_one: effective_beta == OutT::one(),
+                });
                 kernel.gemv_kernel(mat_vec_out, a_block, b_block, alpha, a_quant, b_quant);
 
                 // Reset `beta` so that subsequent updates for each column
@@ -725,6 +736,11 @@ fn gemv<'a, LhsT: GemmInT, RhsT: GemmInT, OutT: GemmOutT>(
 
             // Safety: Calls to `gemv_kernel` initialized all output elements.
             let out_chunk = unsafe { out_chunk.assume_init() };
+            #[cfg(rten_verif)]
+            verif::record(verif::TraceEv::GemvBias {
+                col_start: col_block.start,
+                col_end: col_block.end,
+            });
             match bias {
                 Some(BiasVector::Column(bias)) => {
                     let bias = bias[0];
@@ -1198,6 +1214,18 @@ fn gemm_block<LhsT: Sync, RhsT: Sync, OutT: GemmOutT>(
                     }
                 };
 
+                #[cfg(rten_verif)]
+                verif::record(verif::TraceEv::Kernel {
+                    row_tile,
+                    col_tile,
+                    used_rows: out_tile.used_rows,
+                    used_cols: out_tile.used_cols,
+                    depth_start: depth_range.start,
+                    depth_end: depth_range.end,
+                    beta_is_zero: beta == OutT::zero(),
+                    beta_is_one: beta == OutT::one(),
+                });
+
                 // Safety:
                 //  - Kernel is supported on current system
                 //  - Output tile is initialized if beta is non-zero
@@ -1222,6 +1250,8 @@ fn gemm_block<LhsT: Sync, RhsT: Sync, OutT: GemmOutT>(
                     // After the kernel is called, all elements of the output
                     // tile are now initialized.
                     let out_ptr = out_tile.ptr as *mut OutT;
+                    #[cfg(rten_verif)]
+                    verif::record(verif::TraceEv::Bias { row_tile, col_tile });
                     match bias {
                         Some(BiasVector::Column(bias)) => {
                             for row in 0..out_tile.used_rows {
@@ -1285,4 +1315,84 @@ pub mod verif {
             .collect()
     }
     // --- end C17 ---
+
+    // --- C16: kernel-call trace, f32 kernel selection, thread pools (b-C16) ---
+    /// One event per micro-kernel / gemv-kernel invocation or bias step made
+    /// by `gemm_block` / `gemv`.
+    #[derive(Clone, Debug, PartialEq, Eq)]
+    pub enum TraceEv {
+        Kernel {
+            row_tile: usize,
+            col_tile: usize,
+            used_rows: usize,
+            used_cols: usize,
+            depth_start: usize,
+            depth_end: usize,
+            beta_is_zero: bool,
+            beta_is_one: bool,
+        },
+        /// The bias step of `gemm_block` was reached for this tile.
+        Bias { row_tile: usize, col_tile: usize },
+        GemvKernel {
+            col_start: usize,
+            col_end: usize,
+            depth_start: usize,
+            depth_end: usize,
+            beta_is_zero: bool,
+            beta_is_one: bool,
+        },
+        /// The bias step of `gemv` was reached for this column block.
+        GemvBias { col_start: usize, col_end: usize },
+    }
+
+    static TRACE: std::sync::Mutex<Option<Vec<TraceEv>>> = std::sync::Mutex::new(None);
+
+    /// Start recording kernel-call events (process-wide).
+    pub fn trace_start() {
+        *TRACE.lock().unwrap_or_else(|e| e.into_inner()) = Some(Vec::new());
+    }
+
+    /// Stop recording and return the events in the order they were recorded.
+    pub fn trace_take() -> Vec<TraceEv> {
+        TRACE
+            .lock()
+            .unwrap_or_else(|e| e.into_inner())
+            .take()
+            .unwrap_or_default()
+    }
+
+    pub(crate) fn record(ev: TraceEv) {
+        if let Some(evs) = TRACE.lock().unwrap_or_else(|e| e.into_inner()).as_mut() {
+            evs.push(ev);
+        }
+    }
+
+    /// One `GemmExecutor<f32>` per f32 kernel supported on this system (same
+    /// enumeration the crate's own tests use), with `(name, mr, nr)`.
+    pub fn f32_gemm_executors() -> Vec<(String, usize, usize, crate::GemmExecutor<f32, f32, f32>)> {
+        use crate::WithKernel;
+        crate::GemmExecutor::<f32, f32, f32>::kernel_types()
+            .into_iter()
+            .filter_map(crate::GemmExecutor::<f32, f32, f32>::with_kernel)
+            .map(|g| {
+                (
+                    g.kernel_name().to_string(),
+                    g.kernel.mr(),
+                    g.kernel.nr(),
+                    g,
+                )
+            })
+            .collect()
+    }
+
+    /// Run `f` inside a dedicated rayon pool with `n` threads, so that
+    /// `rayon::current_num_threads()` (used by the blocking formulas) is `n`.
+    pub fn with_threads<R: Send>(n: usize, f: impl FnOnce() -> R + Send) -> R {
+        rayon::ThreadPoolBuilder::new()
+            .num_threads(n)
+            .build()
+            .expect("failed to build thread pool")
+            .install(f)
+    }
+    // --- end C16 ---
 }
